@@ -253,6 +253,25 @@ def c09(res, rng, tier):
                 pairs = b"".join(k + b"K" + bytes([i + 1]) for i, k in enumerate(ks))
                 nt_progs += [b"(" + pairs + b"d.", b"}(" + pairs + b"u.", b"}" + b"".join(k + b"K" + bytes([i + 1]) + b"s" for i, k in enumerate(ks)) + b".",
                              b"}q\x00(" + pairs + b"uh\x00."]
+    # keys equal to MANY stored keys at once: tuples of 2 and 3 strings, every unicode/bytes combination stored
+    # (4 resp. 8 mutually unequal keys), then the all-Python-2-str tuple that equals each of them; plus random
+    # sequences over the whole 3^n key space
+    item = {"u": b"X\x01\x00\x00\x00a", "b": b"C\x01a", "z": b"U\x01a"}
+    def tkey(word):
+        return b"".join(item[c] for c in word) + {2: b"\x86", 3: b"\x87"}[len(word)]
+    rr = rng.fork("multi")
+    seqs = []
+    for n in (2, 3):
+        ub = ["".join(w) for w in itertools.product("ub", repeat=n)]
+        allw = ["".join(w) for w in itertools.product("ubz", repeat=n)]
+        seqs += [ub + ["z" * n], ["z" * n] + ub, ub[::-1] + ["z" * n] + ub[:1], ub + ["z" * n, "z" * n], ub + ["z" + "u" * (n - 1)] + ["z" * n]]
+        for _ in range(40 if tier == "quick" else 600):
+            seqs.append([rr.choice(allw) for _ in range(3 + rr.below(2 ** n + 3))])
+    for sq in seqs:
+        ks = [tkey(w) for w in sq]
+        pairs = b"".join(k + b"K" + bytes([i + 1]) for i, k in enumerate(ks))
+        nt_progs += [b"(" + pairs + b"d.", b"}(" + pairs + b"u.", b"}" + b"".join(k + b"K" + bytes([i + 1]) + b"s" for i, k in enumerate(ks)) + b".",
+                     b"}q\x00(" + pairs + b"uh\x00."]
     nt_lines = ["dec %s %s 0 %s" % (pd, su, p.hex()) for p in nt_progs for pd, su in CONFIGS]
     nt_impl = C.implrun(nt_lines)
     nt_model = C.modelrun(nt_lines)
@@ -293,7 +312,11 @@ class ObjGen:
         return r.below(100000) - 50000
     def scalar(self, hashable=False):
         r = self.r
-        k = r.below(8 if hashable else 9)
+        k = r.below(8 if hashable else 10)
+        if k == 9:      # other builtins pickled through REDUCE stay symbolic Calls: complex, range, slice
+            # (set / frozenset use EMPTY_SET / ADDITEMS / FROZENSET from protocol 4, which og-rek documents as unsupported)
+            return r.choice([complex(r.below(9) - 4, r.below(5) / 2), complex(0.0, -0.0), range(r.below(5)), slice(1, r.below(9), None),
+                             complex(1e308, 5e-324)])
         if k == 0: return None
         if k == 1: return bool(r.below(2))
         if k in (2, 3): return self.integer()
@@ -396,6 +419,14 @@ def c02(res, rng, tier):
     for n in ((1001,) if q else (1000, 1001, 2001)):
         batch.append(({i: str(i) for i in range(n)}, (0, 2, 4), (pickle.dumps,)))
         batch.append(({i: None for i in range(n)}, (2,), (pickle._dumps,)))
+    # more than 256 / 65536 memoised objects with later references to late ones (LONG_BINGET / LONG_BINPUT / the
+    # decimal forms of GET / PUT with 3..5 digits): the memo index in every width and byte order
+    many = [(str(i), (i, str(i))) for i in range(300)]   # tuples: shared lists would hit the known finding stale_list_view
+    batch.append(([many, many[250:], [m[1] for m in many[::7]]], range(0, 6), (pickle.dumps, pickle._dumps)))
+    batch.append(([(float(i),) for i in range(700)] * 2, (1, 3, 4), (pickle.dumps,)))
+    if not q:
+        wide = [(i,) for i in range(66000)]
+        batch.append(([wide, wide[65530:], wide[255:258]], (2, 4), (pickle.dumps,)))
     for o, protos, dumpers in batch:
         for proto in protos:
             for dumper in dumpers:
